@@ -940,32 +940,48 @@ def r8(ctx):
     sf = repo.fn("UDPMessageSerializer.serialize")
     hf = repo.fn("UDPMessageDeserializer._parse_message_header")
 
-    def ack_guard(f, opname):
+    def ack_guard(f, opname, ack_side):
+        """spec writes/reads that belong to the ack trailer with the atoms of the conditions they sit under.
+        Writer side: every conditional spec write on the header writer (the three header fields are
+        unconditional).  Reader side: spec reads under the has_acks flag."""
         out = []
         for c in find_calls(f.node, opname, into_defs=False):
-            if c.args and spec_symbol(c.args[0]) and has_path_fact(c, "has_acks", True, f.node):
-                atoms_ = set()
-                from ..core import conditions
-                for cond in conditions(c, f.node):
-                    if cond.kind == "early-exit":
-                        ifst = parent(cond.test)
-                        exit_branch = ifst.body if not cond.polarity else ifst.orelse
-                        if isinstance(ifst, ast.If) and exit_branch and isinstance(exit_branch[-1], ast.Raise):
-                            continue  # a rejection (raise) is not a framing condition
-                    for e, pol in atoms(cond.test, cond.polarity):
-                        atoms_.add((re_sub_recv(src(e)), pol))
+            if not (c.args and spec_symbol(c.args[0])):
+                continue
+            from ..core import conditions
+            conds = [cond for cond in conditions(c, f.node)]
+            atoms_ = set()
+            branchy = False
+            for cond in conds:
+                if cond.kind == "early-exit":
+                    ifst = parent(cond.test)
+                    exit_branch = ifst.body if not cond.polarity else ifst.orelse
+                    if isinstance(ifst, ast.If) and exit_branch and isinstance(exit_branch[-1], ast.Raise):
+                        continue  # a rejection (raise) is not a framing condition
+                if cond.kind in ("if", "early-exit"):
+                    branchy = True
+                for e, pol in atoms(cond.test, cond.polarity):
+                    atoms_.add((re_sub_recv(src(e)), pol))
+            if ack_side == "reader":
+                if has_path_fact(c, "has_acks", True, f.node):
+                    out.append((c, atoms_))
+            elif branchy:
                 out.append((c, atoms_))
         return out
 
     def re_sub_recv(text):
         import re
         return re.sub(r"\b(msg|message|self)\.", "M.", text)
-    w = ack_guard(sf, "write")
-    r = ack_guard(hf, "read")
-    ctx.floor("C01.R8", "ack trailer ops", len(w) + len(r), 4)
+    w = ack_guard(sf, "write", "writer")
+    r = ack_guard(hf, "read", "reader")
+    ctx.floor("C01.R8", "ack trailer reads", len(r), 2)
+    ctx.ob("C01.R8", "serializer writes an ack trailer (element loop + count) under a condition", len(w) >= 2, sf.where,
+           f"found {len(w)} conditional spec writes on the header writer")
     r_atoms = set.intersection(*[a for _, a in r]) if r else set()
     for c, a in w:
-        extra = {x for x in a if x not in r_atoms and x[0] != "M.has_acks"}
+        extra = {x for x in a if x not in r_atoms and x != ("M.has_acks", True)}
+        if ("M.has_acks", True) not in a:
+            extra.add(("M.has_acks flag not tested", False))
         ctx.ob("C01.R8", f"ack trailer write `{norm(c)}` guarded exactly like the reader's trailer read", not extra,
                ctx.w(sf, c), f"writer adds condition(s) {sorted(extra)}: the ACK flag is already in the header, so the "
                f"reader would still strip a trailer")
